@@ -291,31 +291,95 @@ pub(crate) fn c07_read128() {
     vreach!("C07|read128|reach_gpr", is_xmm(reg).is_none());
 }
 
-// @harness id=c07_write128 props=C07 crash=C07 tier=quick
+// @harness id=c07_write128 props=C07 crash=C07 tier=thorough timeout=1500
 #[cfg_attr(kani, kani::proof)]
 #[cfg_attr(kani, kani::unwind(90))]
 #[cfg_attr(kani, kani::stub(alloc::fmt::format, crate::verif::util::stub_format))]
 pub(crate) fn c07_write128() {
     let mut ax = mk_ax_n(4);
     let s0 = snap(&ax);
-    let reg = any_reg();
+    // The register id is made concrete per call site (86 guarded calls, one per id): a store
+    // of a 128-bit value through `slots[symbolic index]` of the model map is very slow.
+    let sel: usize = kani::any::<usize>();
+    kani::assume(sel < 86);
     let v: u128 = kani::any::<u128>();
-    let wr = ax.reg_write_128(reg, v);
-    let s1 = snap(&ax);
-    match is_xmm(reg) {
-        Some(i) => {
-            let mut n = s0;
-            n.x[i] = v;
-            vcheck!("C07|write128|accepts_xmm", wr.is_ok());
-            vcheck!("C07|write128|state_after_write", s1 == n);
+    let mut wr = Ok(());
+    let mut reg = RIP;
+    let mut k = 0usize;
+    while k < 86 {
+        if sel == k {
+            // SAFETY: SupportedRegister is a fieldless enum with discriminants 0..=85
+            reg = unsafe { std::mem::transmute::<u8, SupportedRegister>(k as u8) };
+            wr = ax.reg_write_128(reg, v);
         }
-        None => {
-            vcheck!("C07|write128|rejects_non_xmm", wr.is_err());
-            vcheck!("C07|write128|reject_leaves_state", s1 == s0);
-        }
+        k += 1;
     }
+    let s1 = snap(&ax);
+    let target = is_xmm(reg);
+    vcheck!("C07|write128|accepts_exactly_xmm", wr.is_ok() == target.is_some());
+    // element-wise, with a concrete loop index (no symbolic-index update of a 128-bit array)
+    let mut j = 0;
+    while j < 16 {
+        let want = if target == Some(j) { v } else { s0.x[j] };
+        vcheck!("C07|write128|xmm_state_after_write", s1.x[j] == want);
+        j += 1;
+    }
+    let mut j = 0;
+    while j < 17 {
+        vcheck!("C07|write128|gprs_untouched", s1.r[j] == s0.r[j]);
+        j += 1;
+    }
+    vcheck!("C07|write128|flags_segments_untouched", s1.rflags == s0.rflags && s1.fs == s0.fs && s1.gs == s0.gs);
     vcheck!("C07|write128|invariant", invariant(&ax));
-    vreach!("C07|write128|reach_xmm", wr.is_ok());
+    vreach!("C07|write128|reach_xmm", wr.is_ok() && reg as usize == XMM7 as usize);
+    vreach!("C07|write128|reach_gpr", wr.is_err());
+}
+
+// @harness id=c07_write128_sel props=C07 crash=C07 tier=quick
+#[cfg_attr(kani, kani::proof)]
+#[cfg_attr(kani, kani::unwind(90))]
+#[cfg_attr(kani, kani::stub(alloc::fmt::format, crate::verif::util::stub_format))]
+pub(crate) fn c07_write128_sel() {
+    let mut ax = mk_ax_n(4);
+    let s0 = snap(&ax);
+    // The register id is made concrete per call site (86 guarded calls, one per id): a store
+    // of a 128-bit value through `slots[symbolic index]` of the model map is very slow.
+    // quick tier: the id ranges over six representative registers (the thorough harness
+    // c07_write128 ranges over all 86)
+    const PICK: [usize; 6] = [0, 1, 17, 50, 70, 85]; // RIP, RAX, EIP, AH, XMM0, XMM15
+    let p: usize = kani::any::<usize>();
+    kani::assume(p < 6);
+    let sel: usize = PICK[p];
+    let v: u128 = kani::any::<u128>();
+    let mut wr = Ok(());
+    let mut reg = RIP;
+    let mut k = 0usize;
+    while k < 86 {
+        if sel == k && (k == 0 || k == 1 || k == 17 || k == 50 || k == 70 || k == 85) {
+            // SAFETY: SupportedRegister is a fieldless enum with discriminants 0..=85
+            reg = unsafe { std::mem::transmute::<u8, SupportedRegister>(k as u8) };
+            wr = ax.reg_write_128(reg, v);
+        }
+        k += 1;
+    }
+    let s1 = snap(&ax);
+    let target = is_xmm(reg);
+    vcheck!("C07|write128|accepts_exactly_xmm", wr.is_ok() == target.is_some());
+    // element-wise, with a concrete loop index (no symbolic-index update of a 128-bit array)
+    let mut j = 0;
+    while j < 16 {
+        let want = if target == Some(j) { v } else { s0.x[j] };
+        vcheck!("C07|write128|xmm_state_after_write", s1.x[j] == want);
+        j += 1;
+    }
+    let mut j = 0;
+    while j < 17 {
+        vcheck!("C07|write128|gprs_untouched", s1.r[j] == s0.r[j]);
+        j += 1;
+    }
+    vcheck!("C07|write128|flags_segments_untouched", s1.rflags == s0.rflags && s1.fs == s0.fs && s1.gs == s0.gs);
+    vcheck!("C07|write128|invariant", invariant(&ax));
+    vreach!("C07|write128|reach_xmm", wr.is_ok() && reg as usize == XMM15 as usize);
     vreach!("C07|write128|reach_gpr", wr.is_err());
 }
 
